@@ -153,6 +153,18 @@ theorem bytes_unguarded_edges_go_forward (d : List Nat) (p : Nat) :
   ⟨fun g ch h => nodeOfBytes_glyph h, fun tag ch h => nodeOfBytes_transform h,
    fun s m b h => nodeOfBytes_composite h⟩
 
+/-- **A chain of unguarded edges is shorter than the table**: `k` consecutive `PaintGlyph` / transform /
+`PaintComposite` edges from the paint at offset `p` end at an offset `≥ p + k` inside the table.  (Each paint
+is at least 3 bytes long, so in fact `3·k < len`; the depth limit 64 is what bounds guarded edges.) -/
+theorem bytes_unguarded_chain_shorter_than_table (d : List Nat) (p k : Nat) (hp : p < d.length)
+    (h : UChain d p k) : p + k < d.length := by
+  induction h with
+  | here p => omega
+  | step he _ ih =>
+    have := he.forward
+    have := ih this.2
+    omega
+
 /-! ### bounded number of visited paint nodes -/
 
 /-- **Visit bound for every byte string** (`Bytes d`: the data consists of bytes): at most
@@ -306,6 +318,11 @@ private def glyphSolid : List Nat :=
 
 example : (paintBytes glyphSolid unimpl 1).map (fun r => (r.1, r.2.evs, r.2.visits))
     = some (none, [.pushClipBox [0, 0, 100, 100], .fillGlyph 7 none [0, 3, 16384], .popClip], 2) := by decide +kernel
+
+/-- the `PaintGlyph → PaintSolid` edge of that table is an unguarded edge (hypothesis of
+`bytes_unguarded_chain_shorter_than_table`) -/
+example : UChain glyphSolid 44 1 :=
+  .step (.glyph (g := 7) (q := 50) (by decide +kernel)) (.here _)
 
 /-- the same table with an INVERTED clip box (x_min 100 > x_max 0): pushed as is, popped once -/
 private def glyphSolidInverted : List Nat := glyphSolid.take 68 ++ [0,100, 0,0, 0,0, 0,100]
